@@ -150,6 +150,7 @@ impl Scenario {
                             EditOp::SetMeta { path, mode, mtime, owner } => {
                                 format!("meta {path} mode={mode:?} mtime={mtime:?} owner={owner:?}")
                             }
+                            EditOp::BulkEmptyFiles { dir, prefix, count, .. } => format!("{count} empty files {dir}/{prefix}NNNNN"),
                         })
                         .collect::<Vec<_>>()
                         .join("; ")
